@@ -236,17 +236,24 @@ def run(rep, tier):
     # witnesses on the real build: extra headers and error rendering
     t1 = time.time()
     scs = [{"config": {}, "request": {"method": "GET", "uri": "/bkt/key", "headers": []},
-            "backend": {"headers": [["x-extra-one", "1"], ["x-extra-two", "2"]]}},
+            "backend": {"headers": [["x-extra-one", "1"], ["x-extra-two", "2"], ["x-replica", "a"], ["x-replica", "b"], ["x-replica", "c"]]}},
+           {"config": {}, "request": {"method": "HEAD", "uri": "/bkt/key", "headers": []},
+            "backend": {"headers": [["x-replica", "a"], ["x-replica", "b"], ["x-replica", "c"]]}},
            {"config": {}, "request": {"method": "GET", "uri": "/bkt/key", "headers": []},
             "backend": {"result": "err:NoSuchKey", "message": "gone", "request_id": "RID1"}},
            {"config": {}, "request": {"method": "DELETE", "uri": "/bkt/key", "headers": []}, "backend": {}}]
     outs = replay.run_scenarios(scs)
+    rep_vals = lambda o: sorted(v for k, v in o.get("headers", []) if k == "x-replica")     # noqa: E731
     okw = dict(outs[0].get("headers", [])).get("x-extra-one") == "1" and outs[0].get("status") == 200 and \
-        outs[1].get("status") == 404 and "<Code>NoSuchKey</Code>" in outs[1].get("body_text", "") and outs[2].get("status") == 204
-    rep.traces_validated += 3
+        rep_vals(outs[0]) == ["a", "b", "c"] and rep_vals(outs[1]) == ["a", "b", "c"] and \
+        outs[2].get("status") == 404 and "<Code>NoSuchKey</Code>" in outs[2].get("body_text", "") and outs[3].get("status") == 204
+    rep.traces_validated += 4
     rep.obligation("witnesses: extra headers / error document / 204 on the real build", "replayer", "holds" if okw else "inconclusive", time.time() - t1)
     if not okw:
-        rep.fail_inconclusive("witness scenarios disagree with the rsx prediction: %s" % [(o.get("status"), o.get("headers")) for o in outs])
+        res = rep.violation("witness:response-metadata", "real build: extra headers (incl. a header repeated three times) / error document / 204 "
+                            "do not arrive as the backend returned them: %s" % [(o.get("status"), o.get("headers")) for o in outs][:2],
+                            rep.save_cex("witness_response", outs), confirmed=True)
+        rep.obligations[-1]["result"] = res
     for d in prof.CATALOGUE_DOC:
         rep.assume("catalogue: " + d)
     kspec.run_spec(rep, "C03", tier, budget_s=300)
